@@ -62,7 +62,19 @@ fn hostile_preload(rng: &mut Rng, apps: &[AppSpec]) -> (BTreeMap<String, Val>, S
 fn hostile_body(rng: &mut Rng, apps: &[AppSpec]) -> (Vec<u8>, String) {
     let (doc, _) = gen_doc(rng, apps, None, true);
     let good = crate::sim::omaha::render_doc(&doc);
-    match rng.below(12) {
+    match rng.below(13) {
+        12 => {
+            // a well-formed document that names an app twice (any mix of statuses)
+            let mut d2 = doc.clone();
+            if !d2.apps.is_empty() {
+                let k = rng.usize(d2.apps.len());
+                let mut dup = d2.apps[k].clone();
+                dup.updatecheck = Some(if rng.bool() { UcSpec::ok(Some("8.8.8.8")) } else { UcSpec::status("noupdate") });
+                let pos = rng.usize(d2.apps.len() + 1);
+                d2.apps.insert(pos, dup);
+            }
+            (crate::sim::omaha::render_doc(&d2), "dup-appid".into())
+        }
         9 => (vec![], "empty".into()),
         10 => {
             // every short truncation of a guarded document, and near-miss guards
